@@ -941,7 +941,7 @@ def run_variant(prog, variant, timeout_s=120, queries=("sound", "honest"), first
                     return rc, total, None, dict(inputs=cand, cases=cases)
             return "unsat", total, None, dict(inputs=cand, cases=cases, domains=[doms[k] for k in cand])
 
-        def full_split(mk_query, depth=2):
+        def full_split(mk_query, depth=3):
             """last resort: fix the first input(s) to each of the p field values (p, then p^2 cases)"""
             if nin == 0:
                 return None
@@ -955,7 +955,7 @@ def run_variant(prog, variant, timeout_s=120, queries=("sound", "honest"), first
                         fixed[("in", level)] = v
                         t = buildh(fixed)
                         mk_query(*t)
-                        rc, mc, dtc, _ = solve(t[0], first_timeout)
+                        rc, mc, dtc, _ = solve(t[0], first_timeout if level + 1 < min(depth, nin) else timeout_s)
                         total += dtc
                         cases += 1
                         if rc == "sat":
